@@ -127,8 +127,8 @@ func c02IsTempRemoval(f *File) func(string, *ast.CallExpr) bool {
 			return true
 		}
 		if fn == "os.Remove" && len(c.Args) == 1 {
-			a := strings.ToLower(f.Str(c.Args[0]))
-			return strings.Contains(a, "temp") || strings.Contains(a, ".compact")
+			a := f.Str(c.Args[0])
+			return a == "tempPath" || strings.HasSuffix(a, `+ ".compact"`) || strings.HasPrefix(a, "GetCompactionTempPath(")
 		}
 		return false
 	}
@@ -154,26 +154,19 @@ func c02RemovesTempBefore(f *File, fd *ast.FuncDecl, opener func(string, *ast.Ca
 
 // flushLocked: fw.file.Write(header.Serialize()); fw.file.Write(compressed); fw.file.Write(fw.header.Serialize())
 func c02FlushOrderCanonical(s *c02Src) (Tri, string) {
-	if s.w == nil {
-		return Unknown, ""
+	// one shared pattern with C01 (extract/storage_shared.go) so that the two facts cannot disagree
+	order, line := StorFlushOrder(s.w)
+	where := c02Writer
+	if line > 0 {
+		where = c02Writer + ":" + itoa(line)
 	}
-	fd := s.w.Func("FileWriter", "flushLocked")
-	if fd == nil {
-		return Unknown, c02Writer
+	switch order {
+	case "blockHeaderDataFileHeader":
+		return Yes, where
+	case "other":
+		return No, where
 	}
-	var args []string
-	for _, c := range s.w.Calls(fd, "fw.file.Write", "fw.file.WriteAt") {
-		if len(c.Args) >= 1 {
-			args = append(args, s.w.Str(c.Args[0]))
-		}
-	}
-	if len(args) == 0 {
-		return Unknown, c02Where(s.w, fd)
-	}
-	if len(args) == 3 && args[0] == "header.Serialize()" && args[1] == "compressed" && args[2] == "fw.header.Serialize()" {
-		return Yes, c02Where(s.w, fd)
-	}
-	return No, c02Where(s.w, fd)
+	return Unknown, where
 }
 
 // Sync()/Close(): fw.file.Sync() executed unconditionally; for Close before fw.file.Close() in the final return
@@ -186,6 +179,28 @@ func c02WriterFsyncs(s *c02Src, method string) (Tri, string) {
 		return Unknown, c02Writer
 	}
 	si, sc := c02UncondIdx(s.w, fd, c02Named("fw.file.Sync"))
+	// an early success return in front of the fsync (e.g. "nothing buffered: return nil") makes it conditional
+	if si >= 0 {
+		for _, st := range fd.Body.List[:si] {
+			early := false
+			switch x := st.(type) {
+			case *ast.ReturnStmt:
+				early = true
+			case *ast.IfStmt:
+				if s.w.Str(x.Cond) != "fw.closed" {
+					ast.Inspect(x.Body, func(n ast.Node) bool {
+						if r, ok := n.(*ast.ReturnStmt); ok && len(r.Results) == 1 && s.w.Str(r.Results[0]) == "nil" {
+							early = true
+						}
+						return true
+					})
+				}
+			}
+			if early {
+				return Unknown, c02Where(s.w, st)
+			}
+		}
+	}
 	if method == "Sync" {
 		if si >= 0 {
 			return Yes, c02Where(s.w, sc)
@@ -240,8 +255,15 @@ func c02OpensExistingForAppend(s *c02Src) (appendMode Tri, truncates Tri, where 
 	switch {
 	case strings.Contains(flags, "O_TRUNC"):
 		return No, No, where
-	case len(truncCalls) > 0:
-		return Yes, Yes, c02Where(s.w, truncCalls[0])
+	case len(truncCalls) > 0 || len(s.w.Calls(oe, "fw.createNewFile")) > 0:
+		// the repaired open: a file too short for header (and name) is started over — two
+		// `return fw.createNewFile()` — and a torn tail is cut by walking the block headers
+		recreate := len(s.w.Calls(oe, "fw.createNewFile"))
+		walks := s.w.Contains(oe, "file.ReadAt(") && s.w.Contains(oe, "BlockHeaderSize")
+		if len(truncCalls) == 1 && len(truncCalls[0].Args) == 1 && s.w.Str(truncCalls[0].Args[0]) == "end" && recreate == 2 && walks && seekEnd {
+			return Yes, Yes, c02Where(s.w, truncCalls[0])
+		}
+		return Yes, Unknown, where
 	case seekEnd && !strings.Contains(flags, "O_APPEND"):
 		return Yes, No, where
 	}
@@ -264,7 +286,9 @@ func c02ReaderFacts(s *c02Src) (shortHdr, tornData Tri, where string) {
 		return Unknown, Unknown, c02Where(s.r, ra)
 	}
 	shortHdr, tornData = Unknown, Unknown
-	for i, st := range fd.Body.List {
+	pre := Unknown // the size pre-check (`CompressedSize > remaining`), when there is one
+	hasPre := false
+	for _, st := range fd.Body.List {
 		ifs, ok := st.(*ast.IfStmt)
 		if !ok {
 			continue
@@ -277,6 +301,20 @@ func c02ReaderFacts(s *c02Src) (shortHdr, tornData Tri, where string) {
 				shortHdr = No
 			}
 		}
+		// site 1: a comparison of CompressedSize with what is left of the file, before the allocation
+		if ifs.Init == nil && strings.Contains(cond, "CompressedSize") && strings.Contains(cond, ">") &&
+			strings.Contains(cond, "remaining") && tornData == Unknown {
+			hasPre = true
+			if len(ifs.Body.List) == 1 {
+				switch s.r.Str(ifs.Body.List[0]) {
+				case "return nil, io.EOF":
+					pre = Yes
+				case "return nil, io.ErrUnexpectedEOF", "return nil, ErrCorruptedBlock", "return nil, err":
+					pre = No
+				}
+			}
+		}
+		// site 2: the error of the payload ReadFull
 		if ifs.Init != nil && strings.Contains(s.r.Str(ifs.Init), "io.ReadFull(fr.file, compressedData)") {
 			where = c02Where(s.r, ifs)
 			body := s.r.Str(ifs.Body)
@@ -287,7 +325,12 @@ func c02ReaderFacts(s *c02Src) (shortHdr, tornData Tri, where string) {
 				tornData = Yes
 			}
 		}
-		_ = i
+	}
+	// With a size pre-check in front of the allocation every short payload is reported there (the
+	// ReadFull behind it can only fail with a genuine I/O error), so the pre-check alone decides;
+	// without one the ReadFull error branch decides.  `yes` iff every short-payload path returns io.EOF.
+	if hasPre {
+		tornData = pre
 	}
 	return
 }
